@@ -482,6 +482,7 @@ type callRun struct {
 	pending    []byte
 	promptLast string
 	free       *FreeSpec
+	suggest    []string // history entries, when history-autosuggest is on (screen oracle)
 }
 
 func (w *worker) runJob(job *Job) (tr *Trace) {
@@ -562,6 +563,11 @@ func (w *worker) runJob(job *Job) (tr *Trace) {
 	sh := readline.NewShell(opts...)
 	run := &callRun{w: w, sh: sh}
 	run.promptLast = visibleLastLine(cfg.Prompt)
+	if strings.Contains(cfg.RC, "set history-autosuggest on") {
+		for _, h := range cfg.Hist {
+			run.suggest = append(run.suggest, h.Lines...)
+		}
+	}
 
 	// Prompts.
 	if cfg.Prompt != "" {
@@ -1088,11 +1094,22 @@ func (g *gate) Read(p []byte) (int, error) {
 	if r.want.ScreenCheck && wantObs && wt.Obs != nil && wt.Obs.Kind == "main" {
 		w.mu.Lock()
 		relaxed := wt.Obs.Hint != "" || wt.Obs.Local == "menu-select" || wt.Obs.Local == "isearch"
-		wt.ScreenVerdict = vt.CheckInput(w.term, r.promptLast, []rune(wt.Obs.Line), wt.Obs.Pos, relaxed, 5)
+		// with history-autosuggest on, the line is displayed followed by the (dimmed) rest of the most
+		// recent history entry it is a prefix of: that is what must be on the screen
+		shown := []rune(wt.Obs.Line)
+		if r.suggest != nil && wt.Obs.Line != "" && wt.Obs.Local == "" {
+			for i := len(r.suggest) - 1; i >= 0; i-- {
+				if strings.HasPrefix(r.suggest[i], wt.Obs.Line) {
+					shown = []rune(r.suggest[i])
+					break
+				}
+			}
+		}
+		wt.ScreenVerdict = vt.CheckInput(w.term, r.promptLast, shown, wt.Obs.Pos, relaxed, 5)
 		if w.term2 != nil {
 			// the picture must be right under BOTH common erase-at-margin behaviours (see vt.Term.LaxEraseAtMargin):
 			// a display that is only right on terminals that erase nothing at a pending wrap loses glyphs on xterm
-			v2 := vt.CheckInput(w.term2, r.promptLast, []rune(wt.Obs.Line), wt.Obs.Pos, relaxed, 5)
+			v2 := vt.CheckInput(w.term2, r.promptLast, shown, wt.Obs.Pos, relaxed, 5)
 			if wt.ScreenVerdict != "" && v2 == "" {
 				wt.ScreenVerdict = "xterm-erase-at-margin: " + wt.ScreenVerdict
 			} else if wt.ScreenVerdict == "" && v2 != "" {
